@@ -14,6 +14,13 @@ var ErrInjected = errors.New("env: injected transport error")
 // ErrSource is the error of a failing ReadFrom source (distinct from a destination failure).
 var ErrSource = errors.New("env: source failed")
 
+// TempErr is a transient transport error in the style of net.Error.
+type TempErr struct{ IsTimeout bool }
+
+func (e TempErr) Error() string   { return "env: transient transport error" }
+func (e TempErr) Temporary() bool { return true }
+func (e TempErr) Timeout() bool   { return e.IsTimeout }
+
 // Src is a byte source. Each Read delivers between 1 and min(len(p), remaining) bytes as
 // decided by Policy. When the data is exhausted (or Cut is reached) it returns EndErr
 // (io.EOF by default).
@@ -30,6 +37,12 @@ type Src struct {
 	// ZeroEvery > 0: every ZeroEvery-th Read call returns (0, nil) without delivering anything
 	// (legal for an io.Reader, if discouraged).
 	ZeroEvery int
+	// HiccupErr != nil: exactly once, when HiccupAt bytes have been delivered, a Read returns
+	// (0, HiccupErr) - a transient failure (EAGAIN-like, a deadline that is then extended);
+	// the Read before it stops at that offset, the Reads after it carry on normally.
+	HiccupAt  int
+	HiccupErr error
+	hiccuped  bool
 	// OnRead, when set, sees the caller's slice before every non-empty Read (state keys).
 	OnRead func(p []byte, off int)
 
@@ -77,6 +90,15 @@ func (s *Src) Read(p []byte) (int, error) {
 	max := len(p)
 	if rem < max {
 		max = rem
+	}
+	if s.HiccupErr != nil && !s.hiccuped {
+		if s.Off == s.HiccupAt {
+			s.hiccuped = true
+			return 0, s.HiccupErr
+		}
+		if s.Off < s.HiccupAt && s.Off+max > s.HiccupAt {
+			max = s.HiccupAt - s.Off
+		}
 	}
 	n := max
 	if s.OnRead != nil {
